@@ -51,7 +51,8 @@ def run_actor(ctx, prop):
                 nd += 1
                 answers = [a for p in d["answers"] for a in p if a]
                 if (not d["ok"] and "panicked" in d["what"]) or any(a.get("err") == "dead" for a in answers):
-                    ctx.violations.append({"what": "C11 (overflow-checked build): the actor loop unwound while serving a request; every later request on every transport is refused",
+                    how = "unwound (panic)" if "panicked" in d.get("what", "") else "ended: requests are answered with the shut-down / dropped-response error"
+                    ctx.violations.append({"what": "C11 (overflow-checked build): the actor loop %s while clients were still being served; every later request on every transport is refused" % how,
                                            "input": {"store": d["store"], "queue_capacity": d["cap"], "client_programs[key,max_burst,count,period,quantity,now_ns]": d["progs"],
                                                      "schedule": d["schedule"], "answers": d["answers"]}})
             ctx.coverage["debug_profile_schedules"] = nd
